@@ -658,6 +658,17 @@ func (e *explorer) evalCall(st *exState, v *ssa.Call, cr callRec) symVal {
 	if len(cr.args) == 1 && cr.args[0].vexpr != "" {
 		r.vexpr = name + "(" + cr.args[0].v() + ")"
 	}
+	if strings.HasPrefix(name, "cmp.Compare") && len(cr.args) == 2 && cr.args[0].abs.k == aInt && cr.args[1].abs.k == aInt {
+		switch {
+		case cr.args[0].abs.i < cr.args[1].abs.i:
+			r.abs = intVal(-1)
+		case cr.args[0].abs.i > cr.args[1].abs.i:
+			r.abs = intVal(1)
+		default:
+			r.abs = intVal(0)
+		}
+		return r
+	}
 	switch name {
 	case "math.Abs", "absInt":
 		if len(cr.args) == 1 {
